@@ -6,6 +6,7 @@ import (
 	"go/types"
 	"regexp"
 
+	"bngvet/internal/flow"
 	"bngvet/internal/lin"
 
 	"golang.org/x/tools/go/callgraph"
@@ -400,7 +401,7 @@ func (p *Prog) checkReadImpl(g *ssa.Function) bool {
 		if !ok || b == g.Recover || len(ret.Results) == 0 {
 			continue
 		}
-		if !e.Prove(ret, e.Len(buf).Sub(e.Eval(ret.Results[0]))) {
+		if !e.Prove(ret, e.Len(buf).Sub(e.Eval(flow.ReturnValues(ret)[0]))) {
 			return false
 		}
 	}
